@@ -514,7 +514,8 @@ impl tracing::field::Visit for FieldVisitor {
 
 impl tracing::Subscriber for Capture {
     fn enabled(&self, _m: &tracing::Metadata<'_>) -> bool {
-        true
+        // (the answer is cached per call site by tracing: TRACE_OFF is set once, at process start, or never)
+        !TRACE_OFF.load(std::sync::atomic::Ordering::Relaxed)
     }
     fn new_span(&self, _s: &tracing::span::Attributes<'_>) -> tracing::span::Id {
         tracing::span::Id::from_u64(1)
@@ -534,6 +535,21 @@ impl tracing::Subscriber for Capture {
                 .find(|(n, _)| n == k)
                 .map(|(_, val)| val.clone())
         };
+        if BT_ACTIVE.load(std::sync::atomic::Ordering::SeqCst) {
+            // bthreads: events arrive from many OS threads, they go to one process-wide sink
+            let mut sink = BT_SINK.lock().unwrap_or_else(|e| e.into_inner());
+            if let Some(reason) = get("dead_letter.reason") {
+                sink.dls.push(BtDl {
+                    actor_id: get("actor.id").and_then(|s| s.parse().ok()).unwrap_or(0),
+                    msg_type: get("message.type_name").unwrap_or_default(),
+                    reason,
+                    op: get("dead_letter.operation").unwrap_or_default(),
+                });
+            } else {
+                sink.logs.push(format!("{level} {}", get("message").unwrap_or_default()));
+            }
+            return;
+        }
         if let Some(reason) = get("dead_letter.reason") {
             ev(EvK::Dl {
                 raw_id: get("actor.id").and_then(|s| s.parse().ok()).unwrap_or(0),
@@ -558,6 +574,25 @@ impl tracing::Subscriber for Capture {
     fn enter(&self, _s: &tracing::span::Id) {}
     fn exit(&self, _s: &tracing::span::Id) {}
 }
+
+#[derive(Debug, Clone, serde::Serialize, serde::Deserialize, PartialEq)]
+pub struct BtDl {
+    pub actor_id: u64,
+    pub msg_type: String,
+    pub reason: String,
+    pub op: String,
+}
+
+#[derive(Default)]
+pub struct BtSink {
+    pub dls: Vec<BtDl>,
+    pub logs: Vec<String>,
+    pub tell_results: Vec<u32>,
+}
+
+pub static TRACE_OFF: std::sync::atomic::AtomicBool = std::sync::atomic::AtomicBool::new(false);
+pub static BT_ACTIVE: std::sync::atomic::AtomicBool = std::sync::atomic::AtomicBool::new(false);
+pub static BT_SINK: Mutex<BtSink> = Mutex::new(BtSink { dls: Vec::new(), logs: Vec::new(), tell_results: Vec::new() });
 
 pub fn install_tracing() {
     let _ = tracing::subscriber::set_global_default(Capture);
